@@ -54,18 +54,29 @@ def main():
     outp = sys.argv[sys.argv.index('--out') + 1] if '--out' in sys.argv else os.path.join(VERIF, 'seeded', 'cross_matrix.json')
     if only and '--out' in only:
         only = only[:only.index('--out')]
+    if only and '--set' in only:
+        only = only[:only.index('--set')]
     res = json.load(open(outp)) if os.path.exists(outp) else {}
-    names = sorted(d for d in os.listdir(os.path.join(VERIF, 'seeded')) if os.path.exists(os.path.join(VERIF, 'seeded', d, 'patch.diff')))
+    sub = sys.argv[sys.argv.index('--set') + 1] if '--set' in sys.argv else 'seeded'     # seeded | harmless
+    if sub != 'seeded' and '--out' not in sys.argv:
+        outp = os.path.join(VERIF, sub, 'cross_matrix.json'); res = json.load(open(outp)) if os.path.exists(outp) else {}
+    names = sorted(d for d in os.listdir(os.path.join(VERIF, sub)) if os.path.exists(os.path.join(VERIF, sub, d, 'patch.diff')))
     for name in names:
         if only and name not in only:
             continue
         if name in res and not only:
             continue
         sh('git checkout -- .', cwd=wt)
-        rc, out = sh(['git', 'apply', os.path.join(VERIF, 'seeded', name, 'patch.diff')], cwd=wt)
+        rc, out = sh(['git', 'apply', os.path.join(VERIF, sub, name, 'patch.diff')], cwd=wt)
         if rc != 0:
             res[name] = {'error': 'patch does not apply: ' + out[-200:]}
             continue
+        if sub == 'harmless':          # a change offered as behaviour-preserving must at least keep the test suite green
+            rc, out = sh('make check 2>&1 | grep -E "^# (PASS|FAIL|ERROR)"', cwd=wt, timeout=900)
+            if '# PASS:  17' not in out:
+                res[name] = {'error': 'test suite does not pass with this change: ' + out[-200:]}
+                sh('git checkout -- .', cwd=wt)
+                continue
         t = time.time()
         with ThreadPoolExecutor(max_workers=10) as ex:
             row = dict(ex.map(lambda p: run_check(p, wt), PIDS))
